@@ -36,7 +36,9 @@ FarKinds(c) ==
     [] c = "UnitQuaternion" -> {"zero"}
 Kinds(c) == {"valid", "near"} \cup FarKinds(c) \cup (IF c = "UnitQuaternion" THEN {"nonunit"} ELSE {})
 
-Forms == {"bare", "list", "tuple", "array"}     \* "array": an N x 4 ndarray of quaternions (UnitQuaternion only, N >= 2)
+Forms == {"bare", "list", "tuple", "array", "stack"}     \* "array": an N x 4 ndarray of quaternions (UnitQuaternion only, N >= 2)
+\* "stack": the matrices stacked into one N x r x c ndarray (matrix classes).  The documentation does not offer this form:
+\* it may be refused, but if it is taken the rules are the same - nothing invalid gets in, no None element
 
 \* outcome of supplying the items `ks` (a sequence of kinds) to the constructor of class c
 Outcome(c, ks) ==
@@ -86,8 +88,9 @@ Construct(c, form, ks) ==
   /\ (form = "bare" => Len(ks) = 1)
   /\ (form = "array" => c = "UnitQuaternion" /\ Len(ks) >= 2)
   /\ (c \in {"UnitQuaternion(R)", "SE3.SO3(R)"} => form = "bare")        \* a list of matrices is not a documented form
+  /\ (form = "stack" => c \in {"SO2", "SE2", "SO3", "SE3"})
   /\ call' = [op |-> "construct", cls |-> c, form |-> form, kinds |-> ks]
-  /\ expect' = Outcome(c, ks)
+  /\ expect' = IF form = "stack" /\ Outcome(c, ks) = "accept" THEN "accept-or-reject" ELSE Outcome(c, ks)
 
 \* an OBJECT of another library class supplied to the constructor (bare, or inside a list):
 \* either rejected, or converted - but the new object must then hold only members of ITS class
